@@ -743,3 +743,10 @@ M("c20-writeback-unconditional", ["C20"], VA,
   [], note="unconditional write-back alone is harmless when the engine preserves lastIndex for non-global regexes (C20-R1 only objects in combination with a flag-dependent constant)")
 T("t-c20-ord-guarded-by-length", ["C04", "C10"], "src/microjs/regex/vm.py",
   "    return ord(mapped) if len(mapped) == 1 else ord(ch)", "    if len(mapped) == 1:\n        return ord(mapped)\n    return ord(ch)")
+M("c07-derived-error-without-parent", ["C07"], CX,
+  "            self._globals[error_name] = self._create_error_constructor(\n                error_name, error_constructor.get(\"prototype\")\n            )",
+  "            self._globals[error_name] = self._create_error_constructor(error_name)",
+  [("C07", "C07-R8", "_setup_globals")], note="fix 60b29da reverted at the registrations")
+M("c07-uncaught-name-dropped", ["C07"], VM,
+  "                    name if isinstance(name, str) and name else \"Error\",\n", "",
+  [("C07", "C07-R9", "uncaught-object")], note="fix a3da203 reverted")
